@@ -308,6 +308,57 @@ theorem delay_rows_zero_iff_delayed (d : DelayProb) (cv : ColVar) (hn : d.nomina
     rw [yAt_same_grid d k cv hc hg, delayedAt_spec]
     exact h k hk
 
+/-- **History interpolation agrees with the interpolation model of C19** on NaN-free series: the
+    values the delayed expression draws from a variable's history are `interpolate(t, times,
+    values, nan, nan, mode)` — what `state_at(t < t0, extrapolate=False)` returns (C15). -/
+theorem interpNaN_eq_interpCore (mode : Nat) (hm : mode ≤ 2) (ks : Knots) (hs : Sorted ks)
+    (hne : ks ≠ []) (t : Rat) :
+    interpNaN mode (numK ks) t = ofOut (interpCore mode ks nanFill nanFill t) := by
+  rcases position ks hne t with h | ⟨pre, a, fa, b, fb, post, e, h1, h2⟩ | ⟨pre, a, fa, e, h1⟩
+  · obtain ⟨⟨t0, f0⟩, rest, rfl⟩ := List.exists_cons_of_ne_nil hne
+    have h' : t < t0 := by simpa [firstTime] using h
+    rw [interpNaN_before mode (t0, f0) rest t h', C19.interp_left_fill mode hm t0 f0 rest _ _ t h']
+    rfl
+  · subst e
+    rw [interpNaN_seg mode pre post a fa b fb t hs h1 h2]
+    by_cases hta : t = a
+    · subst hta
+      simp only [if_true]
+      rw [C19.interp_at_knot _ hs _ _ mode hm (t, fa) (by simp)]
+      rfl
+    · simp only [hta, if_false]
+      have hlt : a < t := lt_of_le_of_ne h1 (Ne.symm hta)
+      have hb := C19.interp_between pre post a fa b fb nanFill nanFill t hs hlt h2
+      obtain rfl | rfl | rfl : mode = 0 ∨ mode = 1 ∨ mode = 2 := by omega
+      · rw [hb.1]; rfl
+      · rw [hb.2.1]; rfl
+      · rw [hb.2.2]; rfl
+  · subst e
+    rw [interpNaN_last mode pre a fa t hs h1]
+    by_cases hta : t = a
+    · subst hta
+      simp only [if_true]
+      rw [C19.interp_at_knot _ hs _ _ mode hm (t, fa) (by simp)]
+      rfl
+    · simp only [hta, if_false]
+      have hlt : lastTime (pre ++ [(a, fa)]) < t := by
+        rw [lastTime_append_cons]
+        simpa [lastTime] using lt_of_le_of_ne h1 (Ne.symm hta)
+      rw [C19.interp_right_fill mode hm _ hs hne _ _ t hlt]
+      rfl
+
+
+/-- **The history the delay draws on is the history `state_at` reports**: on a NaN-free history
+    series the value used for the delayed expression at a history stamp `t < t0` is
+    `state_at(variable, t, extrapolate=False)` of C15. -/
+theorem hist_value_is_state_at (t0 : Rat) (v : SVar) (h : Knots) (t : Rat) (hh : v.hist = some h)
+    (hs : Sorted h) (hne : h ≠ []) (hm : v.mode ≤ 2) (ht : t < t0) :
+    interpNaN v.mode (numK h) t = svStateAt t0 v false t false false := by
+  rw [interpNaN_eq_interpCore v.mode hm h hs hne t,
+    svStateAt_before_t0_history t0 v false t false h ht hh]
+  simp only [signedHist, Bool.false_eq_true, if_false]
+  rw [C19.interp_scalar_early_exit_agrees v.mode hm h hs nanFill nanFill t hne]
+
 /-! ## Non-vacuity -/
 
 /-- one state `x` (nominal 2) and the receiving algebraic variable `y` on the grid 0, 1, 2;
